@@ -30,6 +30,20 @@ def SM(cfg, **kw):
     return dict(mode="mc", cfg=cfg, kind="counter", module="OrdaSync.tla", **kw)
 
 
+def TR(kind, rounds, steps):
+    """I->S: long random histories of real replicas (2-5 replicas, batches of up to a dozen values) recorded by repdriver and
+    validated by TLC against OrdaReplicaTrace: every event re-executed with the kernels, all invariants in every state"""
+    return dict(mode="trace", cfg="rep_trace_" + kind, module="OrdaReplicaTrace.tla", tool="repdriver", kind=kind,
+                args=["-kind", kind, "-rounds", str(rounds), "-steps", str(steps), "-seed", "{seed}"],
+                why="a recorded history of real replicas is not one the specification of the datatype allows")
+
+
+def traces(tier, kinds=("list", "map", "counter")):
+    if tier == "quick":
+        return [TR(k, 4, 150) for k in kinds]
+    return [TR(k, 25, 220) for k in kinds] + [TR(k, 25, 221) for k in kinds if k == "list"]
+
+
 def BIG(n=1):
     """I->S: one LONG sequential history (a client more than a thousand operations behind, more pending operations than one
     buffer holds with a transaction across the boundary), recorded and validated by TLC against OrdaSyncTrace"""
@@ -64,7 +78,7 @@ def multi(tier, props_doc=True):
 def jobs(prop, tier):
     q = tier == "quick"
     if prop in ("C01", "C02"):
-        return multi(tier)
+        return multi(tier) + traces(tier)
     if prop == "C15":
         # identifiers also over histories with failing calls, rollbacks (aborted transactions) and remote deliveries
         extra = ([E("list_tx_edge", "list", 2, rate=0.2), E("map_txb_edge", "map", 2, rate=0.1), S("map_tx_sim", "map", 3, 40, 40),
@@ -76,15 +90,15 @@ def jobs(prop, tier):
         def IDS(cfg, **kw):
             return dict(mode="edge", cfg=cfg, kind="ids", n=0, rate=1.0, tool="idscheck", dump_module="OrdaIdsGrid.tla", prefix="IDS", **kw)
         ids = [IDS("ids_points", shards=1), IDS("ids_pairs"), IDS("ids_ids"), IDS("ids_collide")]
-        return multi(tier) + extra + ids
+        return multi(tier) + extra + ids + traces(tier)
     if prop == "C05":
         if q:
-            return [SE("sync_basic_edge", 2, rate=0.1), SE("sync_sc_edge", 2, rate=0.1), SE("sync_3_edge", 3, rate=0.005),
-                    SS("sync_sim", 3, 40, 60),
+            return [SE("sync_basic_edge", 2, rate=0.06), SE("sync_sc_edge", 2, rate=0.05), SE("sync_3_edge", 3, rate=0.003),
+                    SS("sync_sim", 3, 25, 60),
                     # the same protocol histories with a List (tagged inserts at head / middle): the order of the
                     # elements at settled points depends on the clocks the clients carry through their entry
-                    SE("sync_join_edge", 2, rate=0.08, kind="list"), SE("sync_sc_edge", 2, rate=0.03, kind="list"),
-                    SE("sync_3_edge", 3, rate=0.003, kind="list"), SS("sync_sim", 3, 20, 60, kind="list")] + MU(tier)
+                    SE("sync_join_edge", 2, rate=0.05, kind="list"), SE("sync_sc_edge", 2, rate=0.02, kind="list"),
+                    SS("sync_sim", 3, 16, 60, kind="list")] + MU(tier)
         return MU(tier) + [BIG(2), SM("sync_basic"), SM("sync_sc"), SM("sync_3"), SM("sync_big"), SM("sync_join"), SE("sync_basic_edge", 2), SE("sync_sc_edge", 2),
                 SE("sync_3_edge", 3, rate=0.05), SS("sync_sim", 3, 600, 80),
                 SE("sync_join_edge", 2, kind="list"), SE("sync_sc_edge", 2, kind="list"), SE("sync_basic_edge", 2, kind="list"),
@@ -184,8 +198,8 @@ def jobs(prop, tier):
         if q:
             return [E("list_edge3", "list", 3), E("list_edgeb", "list", 2), E("list_edge", "list", 2, rate=0.25), S("list_sim", "list", 3, 80, 40),
                     # the arrays of a Document (element identity = the unique tag of an inserted primitive)
-                    E("doc_edge", "doc", 2, rate=0.5), S("doc_sim", "doc", 3, 60, 40)]
-        return [M("list_mc", "list"), M("list_mc3", "list"), E("list_edge3", "list", 3), E("list_edgeb", "list", 2), E("list_edge", "list", 2),
+                    E("doc_edge", "doc", 2, rate=0.5), S("doc_sim", "doc", 3, 60, 40)] + traces(tier, ("list",))
+        return traces(tier, ("list",)) + [M("list_mc", "list"), M("list_mc3", "list"), E("list_edge3", "list", 3), E("list_edgeb", "list", 2), E("list_edge", "list", 2),
                 S("list_sim", "list", 3, 800, 50), S("list_sim4", "list", 4, 500, 60),
                 M("doc_mc", "doc"), E("doc_edge", "doc", 2), E("doc_edgeo", "doc", 2), S("doc_sim", "doc", 3, 600, 50)]
     if prop == "C03":
